@@ -126,19 +126,20 @@ impl<Q: Query> FetcherState<Q> {
         if states.is_empty() {
             Iter {
                 state: NonNull::dangling(),
-                state_last: NonNull::dangling(),
                 index: NonNull::dangling(),
+                index_last: NonNull::dangling(),
                 row: ArchetypeRow(0),
                 len: 0,
                 archetypes,
             }
         } else {
             let start = states.as_ptr().cast_mut();
-            let end = start.add(states.len() - 1);
+            let index_start = indices.as_ptr().cast_mut();
+            let index_end = index_start.add(indices.len() - 1);
             Iter {
                 state: NonNull::new(start).unwrap_unchecked(),
-                state_last: NonNull::new(end).unwrap_unchecked(),
-                index: NonNull::new(indices.as_ptr().cast_mut()).unwrap_unchecked(),
+                index: NonNull::new(index_start).unwrap_unchecked(),
+                index_last: NonNull::new(index_end).unwrap_unchecked(),
                 row: ArchetypeRow(0),
                 len: archetypes.get(indices[0]).unwrap_unchecked().entity_count(),
                 archetypes,
@@ -628,14 +629,17 @@ impl std::error::Error for SingleError {}
 #[must_use = "iterators are lazy and do nothing unless consumed"]
 pub struct Iter<'a, Q: Query> {
     /// Pointer into the array of archetype states. This pointer moves forward
-    /// until it reaches `state_last`.
+    /// in lockstep with `index`.
     state: NonNull<Q::ArchState>,
-    /// Pointer to the last arch state, or dangling if there are no arch states.
-    /// This is _not_ a one-past-the-end pointer.
-    state_last: NonNull<Q::ArchState>,
     /// Pointer into the array of archetype indices. This pointer moves forward
-    /// in lockstep with `state`.
+    /// until it reaches `index_last`.
     index: NonNull<ArchetypeIdx>,
+    /// Pointer to the last archetype index, or dangling if there are no arch
+    /// states. This is _not_ a one-past-the-end pointer.
+    ///
+    /// The end is detected on the indices rather than the states because the
+    /// states may be zero-sized, in which case their addresses are all equal.
+    index_last: NonNull<ArchetypeIdx>,
     /// Current row of the current archetype.
     row: ArchetypeRow,
     /// Number of entities in the current archetype.
@@ -649,7 +653,7 @@ impl<'a, Q: Query> Iterator for Iter<'a, Q> {
     #[inline]
     fn next(&mut self) -> Option<Self::Item> {
         if self.row.0 == self.len {
-            if self.state == self.state_last {
+            if self.index == self.index_last {
                 return None;
             }
 
@@ -686,10 +690,7 @@ impl<Q: Query> ExactSizeIterator for Iter<'_, Q> {
 
         let mut index = self.index.as_ptr();
 
-        let index_last = unsafe {
-            // TODO: use `.sub_ptr` when stabilized.
-            index.add(self.state_last.as_ptr().offset_from(self.state.as_ptr()) as usize)
-        };
+        let index_last = self.index_last.as_ptr();
 
         while index != index_last {
             index = unsafe { index.add(1) };
@@ -708,8 +709,8 @@ impl<'a, Q: ReadOnlyQuery> Clone for Iter<'a, Q> {
     fn clone(&self) -> Self {
         Self {
             state: self.state,
-            state_last: self.state_last,
             index: self.index,
+            index_last: self.index_last,
             row: self.row,
             len: self.len,
             archetypes: self.archetypes,
@@ -721,8 +722,8 @@ impl<Q: Query> fmt::Debug for Iter<'_, Q> {
     fn fmt(&self, f: &mut fmt::Formatter<'_>) -> fmt::Result {
         f.debug_struct("Iter")
             .field("state", &self.state)
-            .field("state_last", &self.state_last)
             .field("index", &self.index)
+            .field("index_last", &self.index_last)
             .field("row", &self.row)
             .field("len", &self.len)
             .field("archetypes", &self.archetypes)
